@@ -63,8 +63,15 @@ def check(pid: str, tier: str, replay: str = None, repo: str = None, quiet=False
     # anchors: every (rule, function) the property relies on must have produced an instance
     missing = []
     for rn, fn in info.get('anchors', []):
-        if not any(i.rule == rn and (i.func == fn or i.func.startswith(fn + '.')) for i in mine):
-            missing.append(f'{rn}@{fn}')
+        if any(i.rule == rn and (i.func == fn or i.func.startswith(fn + '.')) for i in mine):
+            continue
+        # the logic may have been extracted into helpers: accept instances in (transitive) callees
+        if ctx.prog.has_func(fn):
+            reach = ctx.an.reachable([ctx.prog.func(fn)])
+            names = {g.short for g in reach.values()}
+            if any(i.rule == rn and i.func in names for rs in results.values() for i in rs):
+                continue
+        missing.append(f'{rn}@{fn}')
     if missing:
         print(f'ANALYSIS-INCOMPLETE: property={pid} expected rule instances vanished: '
               + ', '.join(missing))
